@@ -67,12 +67,27 @@ def step (st : St) (toks : List String) : St × String :=
     match getSlot st (nat! s) with
     | some t => st.runOn (nat! d) (SState.initO t.segs.oracle) false k (copyCtorF cfg thr t (f == "1"))
     | none => (st, "no-object")
+  -- `SegmentedArray::CreateCap(capacity)`: a local empty object, `pvIncCapacity(0, capacity)`; when that throws the local
+  -- object is destroyed.  `CreateCrt(count, creator)`: `CreateCap(count)`, then `pvIncCount(count, creator)` constructs the
+  -- items in the reserved segments; when a creator call throws, `pvIncCount` destroys what it built and the local object is
+  -- destroyed: the statements of the shrinking copy constructor with the creator's values as source
+  | ["newcap", o, n, k] =>
+    st.runOn (nat! o) SState.init false k (SFM.tryCatch (incCapacityF cfg 0 (nat! n)) (do destructorF cfg; SFM.throw))
+  | "crt" :: o :: k :: xs =>
+    st.runOn (nat! o) SState.init false k (copyCtorF cfg thr { (SState.init : SState Nat) with cells := live xs } true)
   | ["del", o] =>
     match getSlot st (nat! o) with
     | some s =>
       let r := st.runOn (nat! o) s true "-" (destructorF cfg)
       ({ r.1 with slots := r.1.slots.set (nat! o) none }, r.2)
     | none => (st, "no-object")
+  | [op, o] =>
+    match getSlot st (nat! o) with
+    | none => (st, "no-object")
+    | some s =>
+      match op with
+      | "get" => st.runOn (nat! o) s true "-" (pure ())
+      | _ => (st, "bad-op")
   | "insr" :: o :: idx :: k :: xs =>
     match getSlot st (nat! o) with
     | some s => st.runOn (nat! o) s true k (insertRangeF cfg thr (nat! idx) (live xs))
